@@ -157,14 +157,14 @@ def unit_str(units) -> str:
 # each; the fixed leaves make sure every leaf kind, a refused rounding block and
 # a refused call occur somewhere whatever the slots hold.
 SKELETONS: list[tuple[str, list, str]] = [
-    ('K1', ['_', ('F', ['_']), 'Rr', ('W', ['C1'])], 'plain'),
+    ('K1', ['_', 'Rs', ('F', ['_']), 'Rr', ('W', ['C1'])], 'plain'),
     ('K2', [('F', ['_', ('F', ['_', 'A'])]), 'C2'], 'plain'),
     ('K3', [('W', [('W', ['_']), 'Rs']), ('F', ['_'])], 'round'),
     ('K4', [('F', [('W', ['_']), 'R2']), ('Fs', ['_'])], 'plain'),
     ('K5', [('I', [('F', ['_'])]), 'Rn', ('W', [('F', ['_'])])], 'plain'),
     ('K6', [('Fs', ['_', ('Fr', ['_'])]), ('Wc', ['M2'])], 'round'),
     ('K7', [('F', ['Rc']), ('F', [('F', ['_']), '_']), ('W', ['Cn'])], 'plain'),
-    ('K8', [('IE', ['_'], [('F', ['_'])]), ('Ic', ['C3']), ('W', ['C11'])], 'plain'),
+    ('K8', [('IE', [('W', ['_'])], [('W', ['_'])]), ('Ic', ['C3']), ('F', ['C11'])], 'plain'),
     # small nests for the deeper histories
     ('D1', [('F', ['_']), ('W', ['_'])], 'plain'),
     ('D2', [('F', [('W', ['_'])]), '_'], 'plain'),
@@ -284,6 +284,51 @@ def ref_forward(edits, p: tuple):
             new = new + (p[i + 1],)
         i += 2
     return ('stmt', new)
+
+
+def ref_chain(chain, p0: tuple):
+    """Replay of the reported edit logs of a whole history on statement path p0.
+
+    Returns ('stmt', path) | ('region', block_prefix, start, n) | ('raise', why).
+    A statement consumed by an edit forwards to what replaced it (one statement:
+    a statement; several: a region; none: an error); a region forwards member by
+    member and must stay one run in one block (cursor.EditLog docstrings)."""
+    cur = ('stmt', p0)
+    for edits in chain:
+        if cur[0] == 'stmt':
+            nxt = ref_forward(edits, cur[1])
+            if nxt[0] == 'inside':
+                return ('raise', 'inside a rewritten statement')
+            if nxt[0] == 'region':
+                _, blk, start, n = nxt
+                if n == 0:
+                    return ('raise', 'deleted')
+                if n == 1:
+                    nxt = ('stmt', blk + (start,))
+            cur = nxt
+            continue
+        _, blk, start, n = cur
+        spans = []
+        blocks = set()
+        for off in range(n):
+            img = ref_forward(edits, blk + (start + off,))
+            if img[0] == 'inside':
+                return ('raise', 'inside a rewritten statement')
+            if img[0] == 'stmt':
+                blocks.add(img[1][:-1])
+                spans.append((img[1][-1], img[1][-1] + 1))
+            else:
+                if img[3] == 0:
+                    return ('raise', 'deleted')
+                blocks.add(img[1])
+                spans.append((img[2], img[2] + img[3]))
+        ok = all(b[0] in (a[1], a[0]) for a, b in zip(spans, spans[1:]))
+        if len(blocks) != 1 or not ok:
+            return ('raise', 'region no longer one run')
+        lo, hi = spans[0][0], max(sp[1] for sp in spans)
+        nb = blocks.pop()
+        cur = ('stmt', nb + (lo,)) if hi - lo == 1 else ('region', nb, lo, hi - lo)
+    return cur
 
 
 def path_tuple(stmt_path) -> tuple:
